@@ -8,6 +8,7 @@ import (
 	"go/token"
 	"go/types"
 	"sort"
+	"strconv"
 	"strings"
 
 	"golang.org/x/tools/go/ssa"
@@ -1037,12 +1038,32 @@ func (fx *FnCtx) cellByName(name string) *ssa.Alloc {
 	for _, a := range fx.allocs {
 		if a.Comment == name {
 			if found != nil {
-				return nil
+				found = nil
+				break
 			}
 			found = a
 		}
 	}
-	return found
+	if found != nil {
+		return found
+	}
+	// anonymous allocations (composite and slice literals) by ordinal in source order: slicelit_3 is the third
+	// allocation that go/ssa labels "slicelit"
+	if k := strings.LastIndexByte(name, '_'); k > 0 {
+		if n, err := strconv.Atoi(name[k+1:]); err == nil && n >= 1 {
+			var as []*ssa.Alloc
+			for _, a := range fx.allocs {
+				if a.Comment == name[:k] {
+					as = append(as, a)
+				}
+			}
+			sort.Slice(as, func(i, j int) bool { return as[i].Pos() < as[j].Pos() })
+			if n <= len(as) {
+				return as[n-1]
+			}
+		}
+	}
+	return nil
 }
 
 func (p *Path) localCell(name string) (string, types.Type, bool) {
@@ -1068,6 +1089,11 @@ func (p *Path) localByName(name string, c *SpecCtx) (Val, bool) {
 	}
 	// variable living in a cell
 	if a, t, ok := p.localCell(name); ok {
+		if at, isArr := t.Underlying().(*types.Array); isArr {
+			// a local array (the backing store of a slice literal) is addressed element-wise: view it as the slice
+			// over all of it, so that x[i] reads the cell IndexAddr computes
+			return Val{T: fmt.Sprintf("(mk_slice %s 0 %d %d)", a, at.Len(), at.Len()), Ty: types.NewSlice(at.Elem())}, true
+		}
 		return Val{T: p.loadIn(c.st, a, t, false), Ty: t}, true
 	}
 	// loop-carried variable at the loop head under consideration
